@@ -1421,7 +1421,10 @@ impl History {
             if !shared && !self.actors[a].guarded && !self.actors[a].persistent && self.rng.below(1000) < self.profile.twin_pm {
                 let twin = format!("$share/g-{}/{f}", f.replace(['/', '+', '#'], "_"));
                 let tq = (qos + 1) % 3;
-                if !self.actors[a].held.contains_key(&twin) && !fs.iter().any(|(p, _)| p == &twin) && !self.triggers.group_two_filters {
+                // (the same decidability rule as above applies to the twin)
+                let clash_packet = fs.iter().any(|(p, q)| *q == tq && overlap(p, &twin));
+                let clash_held = self.actors[a].held.iter().any(|(p, q)| p != &twin && *q == tq && overlap(p, &twin));
+                if !self.actors[a].held.contains_key(&twin) && !fs.iter().any(|(p, _)| p == &twin) && !self.triggers.group_two_filters && !clash_packet && !clash_held {
                     fs.push((twin, tq));
                 }
             }
